@@ -18,10 +18,20 @@ request lists of its approved rounds.
                    utility_unpinned_witness   sub-states chosen by utility / rank are never pinned
   replay         replay_reproduces_single_round_step_partial, replay_consults_no_guard,
                  replay_empty_history (N4: `replayEnter []` answers false), replayTransitions_empty
+  replay, steps of several rounds (end of the file)
+                 replay_reproduces_multi_round_step_partial   any number of approved / vetoed / dropped rounds, no
+                                                              `schedule` request in a round that is not recorded: the
+                                                              replica ends with the authority's whole registry
+                 replay_reproduces_multi_round_active         only approved (substituted) rounds: same active set
+                 replay_reproduces_multi_round_step_reachable the same between two reachable instances
+                 FALSE in general (reproduced on the real library, harness/c09_witness_multiround_replay.cpp):
+                   multi_round_replay_witness  a vetoed round's `schedule` survives `registry.restore`; the
+                                               approved `resume` of the next round lands elsewhere on the replica
 -/
 import Hfsm.Proofs.Pins
 import Hfsm.Proofs.Witness
 import Hfsm.Proofs.Reach
+import Hfsm.Proofs.ReplayMulti
 
 set_option linter.unusedSectionVars false
 
@@ -287,5 +297,183 @@ example : Reachable (Api.run Demo.mach Demo.prog) := Demo.reachable.reachable
 example : ∃ m : Mach Demo.DU, QuietOf Demo.shape Demo.cfg m ∧ m.w.err = none ∧ Demo.cfg.history = true ∧
     m.root.Plain = true ∧ m.w.previous = [⟨none, 1, .change, none⟩] :=
   ⟨_, Demo.quiet, Demo.err_none, by decide, by decide +kernel, by decide +kernel⟩
+
+end Hfsm.Props.C09
+
+/-! ## replay of a step with several rounds
+
+QUESTION.  After a step with substituted rounds (round 1 `ts1` approved, a guard issued `ts2`, round 2 approved, …)
+`previousTransitions = ts1 ++ ts2`, and `replayTransitions` applies it as ONE batch.  In a batch an earlier
+conflicting request can win (N1, KF-C02-batch-earlier-wins) — does the replica end elsewhere than the authority?
+
+ANSWER.  No.  `R_::processTransitions` does not commit between rounds: an approved round only moves the backup
+(`registry.backup`), its request marks stay in the registry, round 2 is applied on top of them, and the single
+commit pass (`deepChangeToRequested`) runs after the loop.  The authority therefore makes exactly the
+`applyRequest` calls of the batch, in the same order, on the same registry (N1 acts in the two rounds as it does
+in the batch); the queue indices differ, but they only feed `pinLastTransition`; the guard passes in between never
+write the registry.  A vetoed round is undone by `registry.restore`, a round that left the marks unchanged did
+nothing — EXCEPT for `schedule` requests, which write `compoResumable`, are neither compared by
+`registry != backup` nor restored, and are not recorded.  That exception is the only way a multi-round step
+escapes replay on a plain machine (`multi_round_replay_witness`).
+
+FULL STATEMENT (false of the code):
+    ∀ a r, r.root = a.root → a.root.NoMarks → approvedOf a.stepLog ≠ [] →
+      ∀ id, (r.replayTransitions a.processRequest.w.previous).1.root.isActive id = a.processRequest.root.isActive id
+-/
+namespace Hfsm.Props.C09
+open Hfsm Hfsm.Mach
+variable {U : Type} [UtilArith U]
+
+/-- **Replay reproduces a step of any number of rounds (partial).**  The authority `a` (no request marks pending)
+runs its substitution loop, log `a.stepLog`; something was approved, so `previousTransitions = approvedOf
+a.stepLog` (`history_is_approved_rounds`).  A replica `r` holding the same registry replays that list: it answers
+`true` and ends with exactly the authority's registry — the same ACTIVE configuration and the same RESUMABLE
+sub-states — and with the same `previousTransitions`.  Hypotheses: `Plain` machine (no `select` / utility /
+random region: the apply phase asks nothing); every record of the log is `RoundOK`: the requests of an approved
+round have kinds `change / restart / resume / schedule` and name states of the machine, a round that is NOT
+recorded (vetoed, or dropped because it left the marks unchanged) carries no `schedule` request. -/
+theorem replay_reproduces_multi_round_step_partial (a r : Mach U) (hroot : r.root = a.root)
+    (hcfg : r.w.cfg.stateCount = a.w.cfg.stateCount) (hplain : a.root.Plain = true) (hnm : a.root.NoMarks)
+    (hlog : ∀ rd ∈ a.stepLog, RoundOK a.w.cfg.stateCount rd) (happ : approvedOf a.stepLog ≠ []) :
+    (r.replayTransitions (approvedOf a.stepLog)).2 = true ∧
+    (r.replayTransitions (approvedOf a.stepLog)).1.root = a.processRequest.root ∧
+    (r.replayTransitions (approvedOf a.stepLog)).1.w.previous = approvedOf a.stepLog :=
+  replay_reproduces_multi_round_step a r hroot hcfg hplain hnm hlog happ
+
+/-- **Substituted rounds.**  All rounds of the step were approved (round `k+1` consists of the requests the guards
+of round `k` issued): the replica that replays the concatenated history has, state by state, the authority's
+active configuration (`Node.isActive`), and the authority's resumable sub-states (`Node.isResumable`). -/
+theorem replay_reproduces_multi_round_active (a r : Mach U) (hroot : r.root = a.root)
+    (hcfg : r.w.cfg.stateCount = a.w.cfg.stateCount) (hplain : a.root.Plain = true) (hnm : a.root.NoMarks)
+    (hall : ∀ rd ∈ a.stepLog, rd.2 = .approved ∧ ∀ t ∈ rd.1, t.kind.plain = true ∧ t.dest < a.w.cfg.stateCount)
+    (hne : a.stepLog ≠ []) :
+    (r.replayTransitions (approvedOf a.stepLog)).2 = true ∧
+    ∀ id, (r.replayTransitions (approvedOf a.stepLog)).1.root.isActive id = a.processRequest.root.isActive id ∧
+      (r.replayTransitions (approvedOf a.stepLog)).1.root.isResumable id = a.processRequest.root.isResumable id := by
+  have happ : approvedOf a.stepLog ≠ [] := by
+    -- the first round is approved and its queue is not empty
+    unfold stepLog at hne hall ⊢
+    generalize a.stepStart.w.cfg.substitutionLimit = fuel at hne hall ⊢
+    cases fuel with
+    | zero => simp only [roundsLog] at hne; exact absurd rfl hne
+    | succ k =>
+      simp only [roundsLog] at hne hall ⊢
+      split at hne
+      · exact absurd rfl hne
+      · next he =>
+        rw [if_neg he] at hall ⊢
+        have h1 := (hall _ List.mem_cons_self).1
+        dsimp only at h1
+        simp only [approvedOf, h1, if_true]
+        intro h
+        have : a.stepStart.w.requests = [] := (List.append_eq_nil_iff.mp h).1
+        rw [this] at he; exact he rfl
+  obtain ⟨h1, h2, _⟩ := replay_reproduces_multi_round_step_partial a r hroot hcfg hplain hnm
+    (fun rd h => ⟨fun _ => (hall rd h).2, fun hn => absurd (hall rd h).1 hn⟩) happ
+  exact ⟨h1, fun id => by rw [h2]; exact ⟨rfl, rfl⟩⟩
+
+namespace W
+open Hfsm.Witness
+/-- `C(0)[1 C(2)[3 4]]` -/
+def shapeCC : Shape :=
+  .compo true 0 .composite (.cons (.leaf 0) (.cons (.compo true 0 .composite (.cons (.leaf 0) (.cons (.leaf 0) .nil))) .nil))
+/-- state 1 active, nothing resumable; `schedule(4)` and `changeTo(2)` queued; the exit guard of 1 (first guard
+callback of the step) substitutes `resume(2)` and cancels the pending transitions -/
+def sched : Mach Nat :=
+  ((fresh (start shapeCC) ([.request .resume 2 none, .cancel] :: idle 20)).request .schedule 4 none).request .change 2 none
+/-- a second instance in the same state -/
+def schedReplica : Mach Nat := fresh (start shapeCC) (idle 20)
+end W
+
+/-- the hypotheses of the partial theorem hold of `W.subst` (two approved rounds, `[→2]` then `[2→3]`) with a
+second instance as replica, and the conclusion is not vacuous: the replica ends in state 3 -/
+example :
+    let r : Mach Nat := Witness.fresh (Witness.start Witness.shapeC) (Witness.idle 20)
+    W.subst.stepLog = [([⟨none, 2, .change, none⟩], .approved), ([⟨some 2, 3, .change, none⟩], .approved)] ∧
+    (r.replayTransitions (approvedOf W.subst.stepLog)).2 = true ∧
+    (r.replayTransitions (approvedOf W.subst.stepLog)).1.root = W.subst.processRequest.root ∧
+    W.subst.processRequest.root.isActive 3 = true := by
+  intro r
+  have hroot : r.root = W.subst.root := Node.eq_of_beqW _ _ (by decide +kernel)
+  obtain ⟨h1, h2, _⟩ := replay_reproduces_multi_round_step_partial W.subst r hroot (by decide +kernel)
+    (by decide +kernel) (Node.noMarks_of_hasMark _ (by decide +kernel)) (by decide +kernel) (by decide +kernel)
+  exact ⟨by decide +kernel, h1, h2, by decide +kernel⟩
+
+/-- … and of `W.substVeto` (round 1 approved, round 2 vetoed, no `schedule`): the vetoed round leaves no trace -/
+example :
+    let r : Mach Nat := Witness.fresh (Witness.start Witness.shapeC) (Witness.idle 20)
+    W.substVeto.stepLog = [([⟨none, 2, .change, none⟩], .approved), ([⟨some 2, 3, .change, none⟩], .vetoed)] ∧
+    (r.replayTransitions [⟨none, 2, .change, none⟩]).1.root = W.substVeto.processRequest.root := by
+  intro r
+  have hroot : r.root = W.substVeto.root := Node.eq_of_beqW _ _ (by decide +kernel)
+  obtain ⟨_, h2, _⟩ := replay_reproduces_multi_round_step_partial W.substVeto r hroot (by decide +kernel)
+    (by decide +kernel) (Node.noMarks_of_hasMark _ (by decide +kernel)) (by decide +kernel) (by decide +kernel)
+  have hp : approvedOf W.substVeto.stepLog = [⟨none, 2, .change, none⟩] := by decide +kernel
+  rw [hp] at h2
+  exact ⟨by decide +kernel, h2⟩
+
+/-- **Witness — a `schedule` request of a vetoed round is applied, kept and not recorded.**  `C(0)[1 C(2)[3 4]]`,
+state 1 active, nothing resumable, on authority and replica alike.  Queue `[schedule 4, changeTo 2]`.  Round 1 is
+applied (`compoResumable(2) := 4`), the exit guard of 1 substitutes `resume 2` and cancels: vetoed, the request
+marks are restored, the resumable mark is not.  Round 2 `[1: resume 2]` is approved and resumes 4.  The history is
+`[1: resume 2]`; the replica replays it (answer `true`, no contract violation on either side) and enters 3:
+authority active `{0, 2, 4}`, replica active `{0, 2, 3}`.  Every hypothesis of the partial theorem holds except
+`RoundOK` of the vetoed round. -/
+theorem multi_round_replay_witness :
+    W.schedReplica.root.beqW W.sched.root = true ∧ W.sched.root.Plain = true ∧ W.sched.root.hasMark = false ∧
+    W.sched.stepLog = [([⟨none, 4, .schedule, none⟩, ⟨none, 2, .change, none⟩], .vetoed),
+                       ([⟨some 1, 2, .resume, none⟩], .approved)] ∧
+    W.sched.processRequest.w.previous = [⟨some 1, 2, .resume, none⟩] ∧
+    (W.schedReplica.replayTransitions W.sched.processRequest.w.previous).2 = true ∧
+    (List.range 5).map W.sched.processRequest.root.isActive = [true, false, true, false, true] ∧
+    (List.range 5).map (W.schedReplica.replayTransitions W.sched.processRequest.w.previous).1.root.isActive =
+      [true, false, true, true, false] ∧
+    W.sched.processRequest.w.err = none ∧
+    (W.schedReplica.replayTransitions W.sched.processRequest.w.previous).1.w.err = none := by decide +kernel
+
+/-- the full statement fails on the witness: same registry before, different active configuration after -/
+theorem multi_round_replay_full_statement_false :
+    ¬ ∀ (a r : Mach Nat), r.root = a.root → a.root.NoMarks → approvedOf a.stepLog ≠ [] →
+      ∀ id, (r.replayTransitions a.processRequest.w.previous).1.root.isActive id = a.processRequest.root.isActive id := by
+  intro h
+  have := h W.sched W.schedReplica (Node.eq_of_beqW _ _ (by decide +kernel))
+    (Node.noMarks_of_hasMark _ (by decide +kernel)) (by decide +kernel) 3
+  revert this
+  decide +kernel
+
+end Hfsm.Props.C09
+
+/-! ### end-to-end -/
+namespace Hfsm.Props.C09
+open Hfsm Hfsm.Mach
+variable {U : Type} [UtilArith U] {shape : Shape} {o : Api.Op}
+
+/-- **Replay of a multi-round step between two reachable instances of the same machine.**  The authority `a` is
+quiet (`QuietOf`: no `load` / failed replay since the last step washed the marks) and met no contract violation;
+its call `o` hands `a'` to `processRequest`; the replica `r` of the same `shape` holds the same registry.  `IdsBelow`,
+`NoMarks` and the state counts are discharged; what is left is what makes the statement true: plain machine, every
+round `RoundOK`, something approved. -/
+theorem replay_reproduces_multi_round_step_reachable {cfgA cfgR : Config} {a a' r : Mach U}
+    (hq : QuietOf shape cfgA a) (he : a.w.err = none) (hr : ReachableOf shape cfgR r) (hp : a.atProcess o = some a')
+    (hroot : r.root = a.root) (hplain : a.root.Plain = true)
+    (hlog : ∀ rd ∈ a'.stepLog, RoundOK shape.stateCount rd) (happ : approvedOf a'.stepLog ≠ []) :
+    (r.replayTransitions (approvedOf a'.stepLog)).2 = true ∧
+    (r.replayTransitions (approvedOf a'.stepLog)).1.root = (Api.step a o).root ∧
+    (r.replayTransitions (approvedOf a'.stepLog)).1.w.previous = approvedOf a'.stepLog := by
+  have ha := hq.reachable
+  have hc : a'.w.cfg = a.w.cfg := Mach.atProcess_cfg hp
+  have hra : a'.root = a.root := Mach.atProcess_root hp
+  rw [Mach.atProcess_step hp]
+  exact replay_reproduces_multi_round_step_partial a' r (hroot.trans hra.symm)
+    (by rw [hc, ha.stateCount, hr.stateCount]) (by rw [hra]; exact hplain) (by rw [hra]; exact hq.noMarks he)
+    (by rw [hc, ha.stateCount]; exact hlog) happ
+
+/-
+Theorems added to property C09 (for `Props/INDEX.json`):
+
+    replay_reproduces_multi_round_step_partial, replay_reproduces_multi_round_active,
+    replay_reproduces_multi_round_step_reachable
+    multi_round_replay_witness, multi_round_replay_full_statement_false                  (full statement false)
+-/
 
 end Hfsm.Props.C09
